@@ -504,3 +504,18 @@ def pi_constants(ctx, rule, bodies, key_prefix='constants'):
                               'the constant %r%s is close to %s = %r but not equal to it: results drift by %.1e per use' % (v, ' (%s)' % name if name else '', tn, tv, abs(abs(v) - tv)),
                               found=repr(v), expected=repr(tv), detail='%s exact' % tn)
     return seen
+
+
+def stores_between(b, call_bi, call_term, local, use_bi):
+    """source positions of statements that store into `local` (whole or element) on some path from the call in block call_bi to
+    block use_bi that does not pass through the call again: the value the call saw is then not the value used later"""
+    bad = []
+    if not b.reaches(call_bi, use_bi):
+        return bad
+    nxt = call_term.get('target')
+    for i, j, st in b.stmts():
+        if st['lhs']['local'] != local or i == call_bi:
+            continue
+        if nxt is not None and b.reaches(nxt, i, avoid=(call_bi,)) and b.reaches(i, use_bi, avoid=(call_bi,)):
+            bad.append(b.where(i, j))
+    return sorted(set(bad))
